@@ -186,8 +186,12 @@ def corr_hash(ctx, res, ncases, use_model=True):
     cases, lines, real = [], [], []
     for _ in range(ncases):
         ops = gen_hash_case(ctx.rng, smax)
+        ok, r = vlib.guarded(res, 'HashTable-op-sequence', {'part': 'hash', 'ops': [list(o) for o in ops]}, run_hash_real, ops)
+        if not ok:
+            res.count('hash:raised')
+            continue
         cases.append(ops)
-        real.append(run_hash_real(ops))
+        real.append(r)
         lines.append('hash.run T T 64 ' + enc_hash_ops(ops))
     model = vlib.run_driver(PROP, lines) if (use_model and ctx.driver_ok) else None
     for k, (ops, (outs, hashes, nd, flag, viol, argmod)) in enumerate(zip(cases, real)):
@@ -273,17 +277,16 @@ def corr_broadcast(ctx, res, ncases, use_model=True):
     from pycalphad import variables as v
     rng = ctx.rng
     lines, expect, descs = [], [], []
+    outer = res
 
-    def add(line, impl, desc):
-        lines.append(line); expect.append(impl); descs.append(desc)
-
-    for k in range(ncases):
+    def one_case(k, res, add, cur):
         which = rng.choice(['xt', 'xt', 'xt', 'tg', 'tg', 'x', 'mic', 'bic', 'bic'])
+        cur['fn'] = which
         res.count('bc:' + which)
         if which == 'xt':
             x = _rand_arg(rng); T = _rand_arg(rng, ('s', 'v', 'v')); isb = rng.random() < 0.5
             xa, Ta = _np_arg(x), _np_arg(T); x0, T0 = copy.deepcopy(xa), copy.deepcopy(Ta)
-            desc = {'part': 'broadcast', 'fn': '_process_xT_arrays', 'x': x, 'T': T, 'isBinary': isb}
+            desc = cur['desc'] = {'part': 'broadcast', 'fn': '_process_xT_arrays', 'x': x, 'T': T, 'isBinary': isb}
             try:
                 xo, To = U._process_xT_arrays(xa, Ta, isb)
                 impl = 'ok O %d %s %s' % (len(xo), ' '.join(_fmt_list(r) for r in xo), _fmt_list(To))
@@ -311,7 +314,7 @@ def corr_broadcast(ctx, res, ncases, use_model=True):
         elif which == 'tg':
             T = _rand_arg(rng, ('s', 'v', 'v')); g = _rand_arg(rng, ('s', 'v', 'v'))
             Ta, ga = _np_arg(T), _np_arg(g); T0, g0 = copy.deepcopy(Ta), copy.deepcopy(ga)
-            desc = {'part': 'broadcast', 'fn': '_process_TG_arrays', 'T': T, 'g': g}
+            desc = cur['desc'] = {'part': 'broadcast', 'fn': '_process_TG_arrays', 'T': T, 'g': g}
             lT, lg = len(np.atleast_1d(T0)), len(np.atleast_1d(g0))
             try:
                 To, go = U._process_TG_arrays(Ta, ga)
@@ -331,7 +334,7 @@ def corr_broadcast(ctx, res, ncases, use_model=True):
         elif which == 'x':
             x = _rand_arg(rng, ('s', 'v', 'v')); n = rng.randint(1, 5)
             xa = _np_arg(x); x0 = copy.deepcopy(xa)
-            desc = {'part': 'broadcast', 'fn': '_process_x', 'x': x, 'numElements': n}
+            desc = cur['desc'] = {'part': 'broadcast', 'fn': '_process_x', 'x': x, 'numElements': n}
             xo = U._process_x(xa, n)
             add('bc.x %d %s' % (n, _enc_arg(x)), 'ok O ' + _fmt_list(xo), desc)
             if not _same(xa, x0):
@@ -342,7 +345,7 @@ def corr_broadcast(ctx, res, ncases, use_model=True):
             if g[0] == 'v' and len(g[1]) == 0:
                 g = ('s', 0.0)
             Ta, ga = _np_arg(T), _np_arg(g); T0, g0 = copy.deepcopy(Ta), copy.deepcopy(ga)
-            desc = {'part': 'broadcast', 'fn': 'MulticomponentThermodynamics.getInterfacialComposition (broadcast part)', 'T': T, 'g': g}
+            desc = cur['desc'] = {'part': 'broadcast', 'fn': 'MulticomponentThermodynamics.getInterfacialComposition (broadcast part)', 'T': T, 'g': g}
             rec = []
             fake = types.SimpleNamespace(phases=['A', 'B'])
             fake._interfacialComposition = lambda x, Ti, gi, ph: (rec.append((float(Ti), float(gi))) or (np.zeros(2), np.zeros(2)))
@@ -363,7 +366,7 @@ def corr_broadcast(ctx, res, ncases, use_model=True):
                 g = ('v', [0.0, 100.0]); T = ('s', 700.0)
             as_list = rng.random() < 0.25
             Ta, ga = _np_arg(T), _np_arg(g, as_list); T0, g0 = copy.deepcopy(Ta), copy.deepcopy(ga)
-            desc = {'part': 'broadcast', 'fn': 'BinaryThermodynamics.getInterfacialComposition (gExtra handling)', 'T': T, 'g': g, 'g_is_list': as_list}
+            desc = cur['desc'] = {'part': 'broadcast', 'fn': 'BinaryThermodynamics.getInterfacialComposition (gExtra handling)', 'T': T, 'g': g, 'g_is_list': as_list}
             calls = []
 
             class FakeWks:
@@ -405,6 +408,16 @@ def corr_broadcast(ctx, res, ncases, use_model=True):
             add('bc.bic F %s %s %s' % (f2b(1.0), _enc_arg(T), _enc_arg(g)), impl, desc)
             res.case(('bic', k), impl.startswith('ok O'))
 
+    for k in range(ncases):
+        tmp = Result(); adds = []; cur = {'part': 'broadcast', 'index': k}
+        ok, _ = vlib.guarded(outer, 'broadcast-helper', cur, one_case, k, tmp, lambda l, i, d: adds.append((l, i, d)), cur)
+        if not ok:
+            outer.count('bc:raised')
+            continue
+        outer.merge(tmp)
+        for l, i, d in adds:
+            lines.append(l); expect.append(i); descs.append(d)
+    res = outer
     model = vlib.run_driver(PROP, lines) if (use_model and ctx.driver_ok) else None
     if model is not None:
         for a, e, d in zip(model, expect, descs):
@@ -798,8 +811,10 @@ def situation(prev, q):
     return 'other-point'
 
 
-def run_sequence(ctx, res, kind, method, qs, inst, use_model, seq_id):
-    """one warmed object W, one reference object R (cleared before every reference evaluation)"""
+def run_sequence(ctx, res, kind, method, qs, inst, use_model, seq_id, progress=None):
+    """one warmed object W, one reference object R (cleared before every reference evaluation).
+    `progress` (the replay case of the surrounding guard) always holds the queries issued so far."""
+    progress = progress if progress is not None else {}
     from kawin.thermo.Thermodynamics import SampledPointsCache
     W = mk_therm(kind, method); R = mk_therm(kind, method)
     marks = []
@@ -821,6 +836,7 @@ def run_sequence(ctx, res, kind, method, qs, inst, use_model, seq_id):
         desc = {'part': 'thermo', 'object': OBJ_NAME[kind], 'kind': kind, 'method': method,
                 'sequence': qs[:qi + 1], 'failing_query': q}
         n = q['name']
+        progress.update(sequence=qs[:qi + 1], failing_query=q, method=method)
         res.count('thermo:' + n)
         if q.get('ph') not in (None, ph0) or q.get('pp') not in (None, W.phases[1] if nph > 1 else None):
             res.count('thermo:non-default-phase-argument')
@@ -1086,6 +1102,22 @@ def run_sequence(ctx, res, kind, method, qs, inst, use_model, seq_id):
         res.traces += 1
 
 
+def seq_guarded(ctx, res, kind, method, qs, inst, use_model, seq_id):
+    """one query sequence inside its own guard: an exception raised by kawin/pycalphad during a query becomes a violation
+    carrying the sequence up to that query; the instrumentation is switched off and the run goes on with the next sequence
+    (nothing of an aborted sequence is sent to the model)"""
+    case = {'part': 'thermo', 'object': OBJ_NAME[kind], 'kind': kind, 'method': method, 'sequence': [], 'failing_query': None}
+    ok, _ = vlib.guarded(res, 'thermo-query-sequence', case, run_sequence, ctx, res, kind, method, qs, inst, use_model, seq_id, case)
+    inst.on = False
+    if not ok:
+        res.count('thermo:sequence-aborted-by-exception')
+        if res.violations and res.violations[-1]['key'].startswith('raises:') and case.get('failing_query'):
+            v = res.violations[-1]
+            v['key'] = 'raises:%s:%s' % (case['failing_query'].get('name'), v['key'].rsplit(':', 1)[-1])
+            v['case'] = dict(case, raised_at=v['case'].get('raised_at'))
+    return ok
+
+
 def rng_switch(ctx):
     return ctx.rng.random() < 0.5
 
@@ -1120,17 +1152,17 @@ def corr_thermo(ctx, res, use_model=True):
                            dict(name='method', m='curvature'), dict(name='df', x=M_X2[1], T=T0, rm=False, arr=False)]
         scripted_A = [dict(name='df', x=M_X2[3], T=M_T[2], rm=False, arr=False), dict(name='df', x=M_X2[1], T=M_T[4], rm=False, arr=False),
                       dict(name='df', x=x2, T=T0, rm=False, arr=False), dict(name='df', x=x2, T=T0, rm=False, arr=False)]
-        run_sequence(ctx, res, 'M', 'approximate', scripted_A, inst, use_model, 's3'); sid += 1
+        seq_guarded(ctx, res, 'M', 'approximate', scripted_A, inst, use_model, 's3'); sid += 1
         # 'sampling' method: the sample cache is consulted by every query — temperature jumps without removeCache
         scripted_SB = [dict(name='df', x=B_X[0], T=B_T[0], rm=False, arr=False), dict(name='df', x=B_X[0], T=B_T[3], rm=False, arr=False),
                        dict(name='df', x=B_X[1], T=B_T[3], rm=False, arr=False), dict(name='df', x=[B_X[0], B_X[2]], T=[B_T[0], B_T[1]], rm=False, arr=True),
                        dict(name='dens', d=1000), dict(name='df', x=B_X[0], T=B_T[1], rm=False, arr=False)]
         scripted_SM = [dict(name='df', x=x2, T=T0, rm=False, arr=False), dict(name='df', x=x2, T=M_T[3], rm=False, arr=False),
                        dict(name='df', x=M_X2[1], T=M_T[3], rm=False, arr=False)]
-        run_sequence(ctx, res, 'B', 'sampling', scripted_SB, inst, use_model, 's4'); sid += 1
-        run_sequence(ctx, res, 'M', 'sampling', scripted_SM, inst, use_model, 's5'); sid += 1
-        run_sequence(ctx, res, 'M', 'tangent', scripted_switch, inst, use_model, 's0'); sid += 1
-        run_sequence(ctx, res, 'M', 'tangent', scripted_M, inst, use_model, 's1'); sid += 1
+        seq_guarded(ctx, res, 'B', 'sampling', scripted_SB, inst, use_model, 's4'); sid += 1
+        seq_guarded(ctx, res, 'M', 'sampling', scripted_SM, inst, use_model, 's5'); sid += 1
+        seq_guarded(ctx, res, 'M', 'tangent', scripted_switch, inst, use_model, 's0'); sid += 1
+        seq_guarded(ctx, res, 'M', 'tangent', scripted_M, inst, use_model, 's1'); sid += 1
         # multi-phase objects, non-default phase= / precPhase= arguments interleaved
         fx, fT = F_X[0], F_T[0]
         scripted_F = [dict(name='interdiff', x=fx, T=fT, rm=False, arr=False, ph='BCC_A2'), dict(name='interdiff', x=fx, T=fT, rm=True, arr=False, ph=None),
@@ -1145,9 +1177,9 @@ def corr_thermo(ctx, res, use_model=True):
                        dict(name='curv', x=ax, T=A_T[1], rm=True, dir=None, pp='B_PRIME_L'), dict(name='ic', x=ax, T=aT, g=[0.0, 500.0], arr=True, pp='U2_PHASE'),
                        dict(name='growth', x=ax, T=aT, rm=False, dG=6000.0, R=[1e-9, 2e-9], g=[300.0, 150.0], pp='MGSI_B_P'),
                        dict(name='df', x=[ax, A_X[1]], T=[aT, A_T[1]], rm=False, arr=True, pp='U2_PHASE'), dict(name='df', x=ax, T=aT, rm=False, arr=False, pp='U1_PHASE')]
-        run_sequence(ctx, res, 'F', 'tangent', scripted_F, inst, use_model, 's6'); sid += 1
-        run_sequence(ctx, res, 'A', 'tangent', scripted_A5, inst, use_model, 's7'); sid += 1
-        run_sequence(ctx, res, 'B', 'tangent', scripted_B, inst, use_model, 's2'); sid += 1
+        seq_guarded(ctx, res, 'F', 'tangent', scripted_F, inst, use_model, 's6'); sid += 1
+        seq_guarded(ctx, res, 'A', 'tangent', scripted_A5, inst, use_model, 's7'); sid += 1
+        seq_guarded(ctx, res, 'B', 'tangent', scripted_B, inst, use_model, 's2'); sid += 1
         for rep in range(reps):
             for kind, method, n in plan + extra:
                 if n == 0:
@@ -1160,7 +1192,7 @@ def corr_thermo(ctx, res, use_model=True):
                                    dict(name='method', m='tangent')] + qs[k:]
                 if method != 'tangent':
                     qs = [q for q in qs if q['name'] in ('df', 'clear', 'dens', 'interdiff')] or [dict(name='df', x=POOLS[kind][0][0], T=POOLS[kind][1][0], rm=False, arr=False)]
-                run_sequence(ctx, res, kind, method, qs, inst, use_model, sid)
+                seq_guarded(ctx, res, kind, method, qs, inst, use_model, sid)
                 sid += 1
     finally:
         inst.close()
@@ -1175,9 +1207,12 @@ def corr(ctx, oracle_only=False):
                 'B: random scalar/1-d/2-d arguments incl. empty and mismatched lengths for the three helpers and the two hand-rolled broadcasts; '
                 'C/D: random query sequences on the shipped Al-Zr and Ni-Cr-Al objects — non-trivial = warmed caches in use; distinct = (part, index, shape)')
     res.monitored = list(MONITORED)
-    corr_hash(ctx, res, ctx.n(500, 6000), use_model=not oracle_only)
-    corr_broadcast(ctx, res, ctx.n(800, 8000), use_model=not oracle_only)
-    corr_thermo(ctx, res, use_model=not oracle_only)
+    # every part runs inside an outer guard as well (harness errors are collected, re-raised at the end only if the run
+    # found no violation); the cases / sequences inside each part have their own guards
+    vlib.guarded(res, 'hash-part', {'part': 'hash'}, corr_hash, ctx, res, ctx.n(500, 6000), not oracle_only)
+    vlib.guarded(res, 'broadcast-part', {'part': 'broadcast'}, corr_broadcast, ctx, res, ctx.n(800, 8000), not oracle_only)
+    vlib.guarded(res, 'thermo-part', {'part': 'thermo'}, corr_thermo, ctx, res, not oracle_only)
+    vlib.finish_guard(res)
     return res
 
 
@@ -1191,11 +1226,16 @@ def replay(ctx, entry):
     warnings.simplefilter('ignore')
     c = entry['violation']['case']
     key = entry['violation']['key']
-    if c.get('part') == 'hash':
+    if 'part' not in c and isinstance(c.get('case'), dict):
+        c = c['case']                      # a `raises:` violation recorded by vlib.guarded wraps the case
+    if c.get('part') == 'hash' and 'ops' in c:
         ops = [tuple(o) for o in c['ops']]
-        viol = run_hash_real(ops)[4]
+        r = Result()
+        ok, out = vlib.guarded(r, 'HashTable-op-sequence', c, run_hash_real, ops)
+        viol = list(out[4]) if ok else [(v['key'], v['what']) for v in r.violations]
         for v in viol:
             print('  ', v)
+        vlib.finish_guard(r)
         return not viol
     if c.get('part') == 'thermo':
         return replay_thermo(ctx, c, key)
@@ -1218,9 +1258,12 @@ def replay_thermo(ctx, c, key):
     inst = Instr()
     try:
         ctx.driver_ok = False
-        run_sequence(ctx, res, kind, c.get('method', 'tangent'), c['sequence'], inst, False, 0)
+        qs = c['sequence']
+        first_method = next((v for v in [c.get('first_method')] if v), None) or ('tangent' if any(q.get('name') == 'method' for q in qs) else c.get('method', 'tangent'))
+        seq_guarded(ctx, res, kind, first_method, qs, inst, False, 0)
     finally:
         inst.close()
+    vlib.finish_guard(res)
     hit = [v for v in res.violations if v['key'] == key]
     for v in hit[:3]:
         print('  ', v['key'], v['what'], v['observed'], v['required'])
